@@ -526,3 +526,21 @@ Proof.
     + split; [symmetry; exact D1|symmetry; exact D2].
   - right. apply str_eqb_eq in D1. symmetry. exact D1.
 Qed.
+
+(* ------------------------------------------------------------------------------------------------ 1c. metadata templates *)
+Theorem metadata_reads_documented : metadata_reads_ok = true.
+Proof. vm_compute. reflexivity. Qed.
+Theorem metadata_reads_sound : forall f e, In (f, e) gen_metadata_reads -> In e documented_metadata_vars.
+Proof.
+  intros f e H. pose proof metadata_reads_documented as M. unfold metadata_reads_ok in M. rewrite forallb_forall in M.
+  specialize (M _ H). apply mem_str_In. exact M.
+Qed.
+(* the version reaches a metadata file only through package_version *)
+Corollary metadata_version_only_through_package_version : forall f e, In (f, e) gen_metadata_reads ->
+  e <> s2l "openapi.version" /\ e <> s2l "openapi" /\ e <> s2l "config.package_version_override" /\ e <> s2l "config".
+Proof.
+  intros f e H. apply metadata_reads_sound in H. unfold documented_metadata_vars in H. cbn [In] in H.
+  repeat split; intros ->; repeat (destruct H as [H|H]; [vm_compute in H; discriminate|]); exact H.
+Qed.
+Theorem version_declared : version_declared_ok = true.
+Proof. vm_compute. reflexivity. Qed.
